@@ -193,6 +193,25 @@ impl Pattern {
     }
 }
 
+#[cfg(feature = "verif-hooks")]
+impl Pattern {
+    /// Verification hook: the error, if any, with which the regex engine gives
+    /// up on `string` (such a string is reported as not matching).
+    pub fn match_error(&self, string: &str) -> Option<String> {
+        self.regex.as_ref().and_then(|r| {
+            r.match_with_param(
+                string,
+                0,
+                SearchOptions::SEARCH_OPTION_NONE,
+                None,
+                MatchParam::default(),
+            )
+            .err()
+            .map(|e| e.description().to_string())
+        })
+    }
+}
+
 #[cfg(test)]
 mod tests {
     use super::*;
